@@ -11,15 +11,16 @@
 package main
 
 import (
+	"crypto/rsa"
 	"fmt"
 	"os"
-	"path/filepath"
 	"runtime"
 	"strings"
 	"sync"
 	"time"
 
 	"github.com/xelaj/mtproto"
+	"github.com/xelaj/mtproto/internal/keys"
 	"github.com/xelaj/mtproto/verifharness/refserver"
 )
 
@@ -37,13 +38,29 @@ func die(f string, a ...interface{}) {
 	os.Exit(3)
 }
 
-// scratch directory outside /repo and /verif, one per process
+// scratch directory outside /repo and /verif: a fresh one per process (never a directory a former
+// process may have left behind); removed by finish()
+var scratchDirs []string
+
 func scratch() string {
-	d := filepath.Join(os.TempDir(), fmt.Sprintf("verif-e2e-%d", os.Getpid()))
-	if err := os.MkdirAll(d, 0o700); err != nil {
+	// VERIF_E2E_SCRATCH: base directory owned (and removed) by whoever started this process
+	d, err := os.MkdirTemp(os.Getenv("VERIF_E2E_SCRATCH"), "verif-e2e-")
+	if err != nil {
 		die("mkdir: %v", err)
 	}
+	scratchDirs = append(scratchDirs, d)
 	return d
+}
+
+// finish ends a child process: END line, scratch directories removed (os.Exit skips deferred calls)
+func finish() {
+	fmt.Println("END")
+	os.Stdout.Sync()
+	os.Chdir(os.TempDir())
+	for _, d := range scratchDirs {
+		os.RemoveAll(d)
+	}
+	os.Exit(0)
 }
 
 // lineOut writes observation lines unbuffered: if the client kills the process (a panic of its
@@ -112,6 +129,15 @@ func withWatchdog(d time.Duration, f func()) (status string, detail string) {
 		n := runtime.Stack(buf, true)
 		return "hang", string(buf[:n])
 	}
+}
+
+// mustKey reads the test public key with the repository's own reader (what telegram.NewClient does)
+func mustKey(path string) *rsa.PublicKey {
+	ks, err := keys.ReadFromFile(path)
+	if err != nil || len(ks) == 0 {
+		die("reading the test public key: %v", err)
+	}
+	return ks[0]
 }
 
 func main() {
